@@ -101,7 +101,7 @@ Section GroupRun.
     handle sh (mk g0 im []) (mark_ev sc g 0)
     = Some (mk (GRun 0 (upd (repeat AIdle (length rs)) 0 (ARun 0))) (iset im (OAct (act 0)) (cellv Running 0 false)) []).
   Hypothesis Hmark : forall ru acts im i,
-    nth_error acts i = Some AIdle ->
+    i < length rs -> nth_error acts i = Some AIdle ->
     handle sh (mk (GRun ru acts) im []) (mark_ev sc g i)
     = Some (mk (GRun ru (upd acts i (ARun 0))) (iset im (OAct (act i)) (cellv Running 0 false)) []).
   Hypothesis Hstart : forall x x' im i,
@@ -116,7 +116,7 @@ Section GroupRun.
   Hypothesis Hlate : forall x im i,
     g_end x i OOverrun = None -> handle sh (mk x im [act i]) (EvEnd (act i) OOverrun) = Some (mk x im []).
   Hypothesis Hfin : forall x x' im i v n,
-    g_final x i (verdict_status v) n v = Some x' ->
+    i < length rs -> g_final x i (verdict_status v) n v = Some x' ->
     handle sh (mk x im []) (W (OAct (act i)) (verdict_status v) n v)
     = Some (mk x' (iset im (OAct (act i)) (cellv (verdict_status v) n v)) []).
   Hypothesis Hverd : forall x x' im v,
@@ -125,16 +125,17 @@ Section GroupRun.
     = Some (mk x' (iset im (OChecks sc g) (cellv (verdict_status v) 0 false)) []).
 
   Lemma marks_from m : forall j im,
+    j + m <= length rs ->
     run sh (mk (GRun 0 (repeat (ARun 0) j ++ repeat AIdle m)) im []) (map (mark_ev sc g) (seq j m))
     = Some (mk (GRun 0 (repeat (ARun 0) (j + m))) (img_of (map (mark_ev sc g) (seq j m)) im) []).
   Proof.
-    induction m as [|m IH]; intros j im.
+    induction m as [|m IH]; intros j im Lm.
     - simpl. now rewrite app_nil_r, Nat.add_0_r.
     - cbn [repeat seq map].
       assert (E : nth_error (repeat (ARun 0) j ++ AIdle :: repeat AIdle m) j = Some AIdle).
       { rewrite <- (repeat_length (ARun 0) j) at 2. apply nth_app_len. }
-      rewrite (run_cons_handle _ _ _ _ _ (Hmark 0 _ im j E)).
-      rewrite <- (repeat_length (ARun 0) j) at 2. rewrite upd_app_len, repeat_snoc, IH.
+      rewrite (run_cons_handle _ _ _ _ _ (Hmark 0 _ im j ltac:(lia) E)).
+      rewrite <- (repeat_length (ARun 0) j) at 2. rewrite upd_app_len, repeat_snoc, IH by lia.
       now rewrite Nat.add_succ_r.
   Qed.
 
@@ -144,8 +145,8 @@ Section GroupRun.
   Proof.
     assert (L : exists m, length rs = S m).
     { destruct rs as [|r rs']; [congruence|]. now exists (length rs'). }
-    destruct L as [m L]. pose proof (Hopen im) as H. rewrite L in *. unfold marks. cbn [length seq map repeat upd] in *.
-    rewrite (run_cons_handle _ _ _ _ _ H). apply (marks_from m 1).
+    destruct L as [m L]. pose proof (Hopen im) as H. rewrite L in H |- *. unfold marks. cbn [length seq map repeat upd] in H |- *.
+    rewrite (run_cons_handle _ _ _ _ _ H). apply (marks_from m 1). lia.
   Qed.
 
   Lemma one_act pre rest r im :
@@ -158,6 +159,7 @@ Section GroupRun.
                  (img_of (fst (act_run o (act (length pre)) r)) im) []).
   Proof.
     intros Hr Hpre Hrest Him. pose proof (done_marked _ Hpre) as Hpm.
+    assert (Li : length pre < length rs) by (apply nth_error_Some; congruence).
     set (i := length pre) in *.
     destruct (act_attempts sh (act i) r (o (act i)) (fun x im late => mk (GRun 0 (pre ++ x :: rest)) im late))
       with (im := im) as (v & n & Hs & Hrun).
@@ -170,7 +172,7 @@ Section GroupRun.
     - now rewrite Him.
     - unfold act_run. destruct (attempts (o (act i)) (act i) r 0 (S r)) as [tr [v' n']]. cbn [fst snd] in *.
       injection Hs as -> ->. exists n. rewrite run_app, Hrun, img_of_app. cbn [run img_of].
-      rewrite (step_handle _ _ _ _ (Hfin _ _ _ i v n (g_final_at 0 pre rest v n))). reflexivity.
+      rewrite (step_handle _ _ _ _ (Hfin _ _ _ i v n Li (g_final_at 0 pre rest v n))). reflexivity.
   Qed.
 
   Lemma acts_run rs' : forall rs0 pre im,
